@@ -6,7 +6,9 @@ CXX := g++
 QUILL_HDRS := $(shell find $(REPO)/include -type f)
 COMMON := -std=c++17 -g -pthread -I sim -I simsys -I $(REPO)/include -Wno-unused-result
 PLAIN := $(COMMON) -O1
-ASAN := $(COMMON) -O1 -fsanitize=address,undefined -fno-omit-frame-pointer -DSIM_ASAN
+# nonnull-attribute is off: quill's documented handling of a null C string ends in memcpy(dst, nullptr, 0), which has no
+# observable effect and is no property's concern (DESIGN.md, Corrections 12)
+ASAN := $(COMMON) -O1 -fsanitize=address,undefined -fno-sanitize=nonnull-attribute -fno-omit-frame-pointer -DSIM_ASAN
 FOS := 0 1 2 3 4 5 6 7
 
 SIMSYS_LIGHT := simsys/driver.cpp simsys/profiles.cpp $(wildcard simsys/p_*.cpp)
